@@ -17,6 +17,8 @@ From MQ Require Import Base Calls Calls_proofs.
 Theorem C11_returns : forall c p z, In (c, p, z) matrix -> cell_ok (c, p, z) = true.
 Proof. exact matrix_returns. Qed.
 
+(* (the matrix now also has the point "parked inside Transport.Write" x {Close, peer close}: 143 cells) *)
+
 (* the bound is the whole space: every cell that exists and is not an F14 cell is in [matrix] *)
 Theorem C11_matrix_is_all : forall c p z, valid c p z = true -> is_f14 p z = false -> In (c, p, z) matrix.
 Proof. exact matrix_complete. Qed.
@@ -54,7 +56,7 @@ Proof. exact chain_through_wrappers. Qed.
    is gone *)
 Theorem C11_all_wake : forall (cs : list cst) (s : sys) (sched : list label),
   Forall parked cs -> calls s = cs -> stray_only cs (inbox s) ->
-  rd s <> RNotStarted -> (rd s = RFinished -> cclosed s = true) -> ended s ->
+  rd s <> RNotStarted -> reader_inv s -> ended s ->
   Quiescent (run sched s) ->
   Forall2 (fun c0 c => c = finish c0 (closed_err c0)) cs (calls (run sched s)) /\
   cclosed (run sched s) = true /\ rd (run sched s) = RFinished.
@@ -108,6 +110,21 @@ Theorem C11_returns_after_stray_acks : forall k c p z, In k [1; 2; 3; 4]%nat -> 
   stray_cell_ok k (c, p, z) = true.
 Proof. exact matrix_returns_after_stray_acks. Qed.
 
+(* "closed locally ... at whatever step": a call parked INSIDE Transport.Write (the peer stopped reading) —
+   Disconnect, after it has set StateDisconnected, included — does not react to its context (the transport does
+   not know it: stays blocked), but a local Close() ends it under every schedule: write error returned, Done()
+   closed, reader gone. In the model Close closes the transport whatever the connection state. *)
+Theorem C11_close_ends_stalled_write : forall c, inwrite_cancel_then_close_ok c = true.
+Proof. exact close_ends_stalled_write. Qed.
+
+(* Disconnect whose DISCONNECT write failed returns that error with the connection still up; the Close() that
+   follows closes Done() and ends the reader; Close() after a successful Disconnect is a harmless no-op *)
+Theorem C11_close_after_disconnect :
+  dseq_all_ok 0 = true /\ dseq_all_ok 1 = true /\
+  observe LocalClose (dseq_mid 0) = mkO KWrite false false false /\
+  observe LocalClose (dseq_mid 1) = mkO KNil false true true.
+Proof. exact close_after_disconnect. Qed.
+
 (* finding F14 (known, not repaired): the statement is FALSE at the connect lock — a call waiting for
    muConnecting while a Connect waiting for CONNACK holds it stays blocked, its own context done,
    under every schedule ... *)
@@ -126,6 +143,13 @@ Proof. exact connect_lock_refuted. Qed.
    back-off after a loss), and afterwards the loop goroutine is gone *)
 Theorem C11_reconnect_returns : forall p z, In (p, z) rmatrix -> rok p z (rcell_run true p z) = true.
 Proof. exact reconnect_returns. Qed.
+
+(* "a cancelled context is reported as that context's error" for Connect of the reconnecting client: whatever
+   dial or handshake errors earlier attempts recorded, wrapErrorf(ctx.Err(), "establishing first connection
+   (dial: ..., connect: ...)") has the context's error in its chain *)
+Theorem C11_reconnect_connect_ctx_error : forall rc x, x <> CtxLive ->
+  chain_contains unwraps_fixed (ctx_sentinel x) (rconnect_err rc x) = true.
+Proof. exact reconnect_connect_ctx_error. Qed.
 
 Theorem C11_reconnect_matrix_is_all : forall p z, rvalid p z = true -> In (p, z) rmatrix.
 Proof. exact rmatrix_complete. Qed.
@@ -148,6 +172,9 @@ Print Assumptions C11_done_and_reader_exit.
 Print Assumptions C11_reader_never_blocks_on_handoff.
 Print Assumptions C11_serve_returns_after_stray_acks.
 Print Assumptions C11_returns_after_stray_acks.
+Print Assumptions C11_close_ends_stalled_write.
+Print Assumptions C11_close_after_disconnect.
+Print Assumptions C11_reconnect_connect_ctx_error.
 Print Assumptions C11_connect_lock_blocks.
 Print Assumptions C11_connect_lock_refuted.
 Print Assumptions C11_reconnect_returns.
